@@ -77,6 +77,10 @@ func histPlans(prop, tier string) []histPlan {
 		ps = append(ps, histPlan{nsqd.HistCfg{MemQ: 8, MaxMsgs: 3, Chans: 1, Cons: 2, Buffered: true}, d})
 		ps = append(ps, histPlan{nsqd.HistCfg{MemQ: 0, MaxBytes: 64, MaxMsgs: 3, Chans: 1, Cons: 1}, d})
 		ps = append(ps, histPlan{nsqd.HistCfg{MemQ: 8, MaxMsgs: 2, Chans: 1, Cons: 1, Restart: true}, d - 1})
+		// the topology-aware-consumption experiment: deliveries over the zone / region hand-off
+		// channels obey RDY, CLS and pause like any other
+		ps = append(ps, histPlan{nsqd.HistCfg{MemQ: 8, MaxMsgs: 3, Chans: 1, Cons: 2, Topology: "mixed"}, d - 1})
+		ps = append(ps, histPlan{nsqd.HistCfg{MemQ: 8, MaxMsgs: 3, Chans: 1, Cons: 1, Topology: "region"}, d - 1})
 	case "C13":
 		ps = append(ps, histPlan{nsqd.HistCfg{MemQ: 8, MaxMsgs: 3, Chans: 2, Cons: 2, Admin: true}, d - 1})
 		ps = append(ps, histPlan{nsqd.HistCfg{MemQ: 1, MaxBytes: 64, MaxMsgs: 3, Chans: 1, Cons: 1, Admin: true}, d})
@@ -232,6 +236,11 @@ func histCheck(prop, tier, level string) int {
 					specs = append(specs, nsqd.MicroSpec{State: st, MemQ: mq, Ops: ops})
 				}
 			}
+		}
+		// the restart as the explored operation (see C05): a topic-level backlog reaches every
+		// channel of the topic
+		for _, mq := range []int64{10, 0} {
+			specs = append(specs, nsqd.MicroSpec{State: "tbacklog2", MemQ: mq, Ops: []string{"restart"}})
 		}
 		runMicros(rep, specs, 20, false)
 		runMicrosDelay(rep, specs, 40, 1, true) // every schedule with <= 1 deviation, completed
